@@ -1328,6 +1328,7 @@ package ucfg
 //@ func reifyMergeValue :: opts, oldValue, val -> r, err
 //@ props C11
 //@ norte
+//@ uses chase
 //@ rvwrites rvRootOf(oldValue), pointeeStore()
 //@ requires opts.opts != nil
 //@ modifies *
@@ -1562,9 +1563,14 @@ package ucfg
 //@ ensures [non_pointer_is_itself] rvKind(v) != 22 ==> r == v
 //@ loop 1 invariant rvKind(entry(v)) != 22 ==> v == entry(v)
 
+//@ ghost func chasedT(t reflect.Type) reflect.Type
+// consequences of the clauses [non_pointer_is_itself] of the two chase functions, stated for their ghost names
+//@ axiom [chase] forall v reflect.Value :: rvKind(v) != 22 ==> chasedP(v) == v
+//@ axiom [chase] forall t reflect.Type :: rtKind(t) != 22 ==> chasedT(t) == t
 //@ func chaseTypePointers :: t -> r
 //@ props C11 C13
 //@ rvwrites nothing
+//@ ensures [naming !unproved] r == chasedT(t)
 //@ requires t != nil
 //@ pure
 //@ ensures [stops] rtKind(r) != 22
@@ -1757,6 +1763,7 @@ package ucfg
 //@ func accessField :: structVal, fieldIdx, opts -> info, skip, err
 //@ props C13 C07
 //@ sweep
+//@ requires rvKind(structVal) == 25
 //@ rvwrites nothing
 //@ ensures [field_of_struct] err == nil && !skip ==> info.value == rvField(structVal, fieldIdx) && rvRootOf(info.value) == rvRootOf(structVal)
 //@ ensures [policy_from_tag] err == nil && !skip && info.tagOptions.cfgHandling != cfgDefaultHandling ==> info.options.configValueHandling == info.tagOptions.cfgHandling
@@ -1781,6 +1788,7 @@ package ucfg
 //@ props C13 C07
 //@ sweep
 //@ requires opts != nil && cfg != nil
+//@ requires rtKind(chasedT(rvType(chasedP(orig)))) == 25
 //@ modifies *
 //@ ensures [untouched_on_error] result != nil && old(allocated(rvRootOf(chasedP(orig)))) && rvRootOf(chasedP(orig)) != pointeeStore() ==> rvver(rvRootOf(chasedP(orig))) == old(rvver(rvRootOf(chasedP(orig))))
 //@ loop 1 invariant old(allocated(rvRootOf(chasedP(entry(orig))))) && rvRootOf(chasedP(entry(orig))) != pointeeStore() ==> rvver(rvRootOf(chasedP(entry(orig)))) == old(rvver(rvRootOf(chasedP(entry(orig)))))
@@ -2037,6 +2045,7 @@ package ucfg
 //@ func reifySliceMerge :: opts, old, tTo, val -> r, err
 //@ props C13 C07
 //@ sweep
+//@ requires rtKind(tTo) == 23
 //@ requires opts.opts != nil
 //@ requires !rvValid(old) || nilableKind(rvKind(old))
 //@ requires hasOld(old) ==> rvKind(old) == 23
@@ -2140,3 +2149,31 @@ package ucfg
 //@ props C07
 //@ sweep
 //@ requires rvKind(from) == 21
+
+//@ func normalizeStructInto :: cfg, opts, from -> result
+//@ props C07
+//@ sweep
+//@ requires rvKind(chased(from)) == 25
+
+//@ func validateStruct :: val, opts -> result
+//@ props C07 C04
+//@ sweep
+//@ requires rvKind(chased(val)) == 25
+//@ loop 1 invariant rvKind(val) == 25
+
+//@ func reifyArray :: opts, to, tTo, val -> r, err
+//@ props C07
+//@ sweep
+//@ requires rtKind(tTo) == 17
+
+// the two Elem calls below are on pointer handles made from package-level types (tConfigPtr) or from a
+// *regexp.Regexp: their kind is a fact about package initialisation / boxing that is not modelled
+//@ func reifyRegexp
+//@ props C07
+//@ sweep
+//@ norte extern@(Value).Elem
+
+//@ func tryTConfig
+//@ props C07
+//@ sweep
+//@ norte extern@(Value).Elem
